@@ -36,6 +36,8 @@ NOTES = {
  "C13-4": "round 2", "C13-5": "round 2", "C13-6": "round 2; first missed by C13 (reported by C02); NO-DOWNGRADE added to C13",
  "C15-4": "round 2; first missed by C15 (reported by C12); STATE-LEVEL added to C15", "C15-5": "round 2", "C15-6": "round 2; first missed; ADD-AFTER-CLOSE added",
  "C04-4": "round 2; first missed; NO-POST-DELIVERY-MUTATION now covers containers declared at the top of a helper", "C04-5": "round 2; first missed; TERMINAL-CALL-AGREEMENT added", "C04-6": "round 2; first missed; TIMER-DEQUEUE-COUPLED added",
+ "C17-4": "round 2; first missed; GO-LATE-REGISTRATION added", "C17-5": "round 2; first missed by C17 (reported by C14/C16); CTX-DONE-TERMINATES added to C17",
+ "C17-6": "round 2; NOT reported: the 1 ms sleep that orders the hand-out of the channel before the completion of an empty source is removed - the unchanged code relies on that sleep, i.e. on timing, which no static rule decides",
  "C16-1": "first missed; WATCHDOG-REARM added", "C16-2": "first missed; STATE-LEVEL added to C16 (the counter of a periodic source is per-subscription state)",
  "C20-2": "first missed by C20 (reported by C12): a change to core GroupBy; C20 now re-checks the core premises of the native limiter", "C20-3": "first missed by C20 (reported by C10/C02): a change to the core unicast subject; C20 now re-checks the core premises of the native limiter",
 }
